@@ -20,7 +20,7 @@ impl Rng {
     fn pick<'a, T>(&mut self, v: &'a [T]) -> &'a T { &v[self.below(v.len() as u64) as usize] }
 }
 
-type Arts = BTreeMap<String, u8>;   // path -> digest byte
+type Arts = BTreeMap<String, (u8, u8)>;   // path -> (sha256 byte, sha512 byte or 0 when the artifact has no sha512 digest)
 
 #[derive(Clone, Debug)]
 enum Rule { Create(String), Delete(String), Modify(String), Allow(String), Require(String), Disallow(String),
@@ -31,7 +31,7 @@ struct MStep { name: String, threshold: u32, keys: Vec<usize>, mat_rules: Vec<Ru
 #[derive(Clone, Debug)]
 struct MLink { step: String, signer: usize, filed_under: usize, tampered: bool, mats: Arts, prods: Arts }
 #[derive(Clone, Debug)]
-struct Scenario { steps: Vec<MStep>, table: Vec<usize>, owners: Vec<usize>, signed_by: Vec<usize>, expired: bool, links: Vec<MLink> }
+struct Scenario { steps: Vec<MStep>, table: Vec<usize>, owners: Vec<usize>, signed_by: Vec<usize>, alias_owner: bool, dup_owner_sig: bool, expired: bool, links: Vec<MLink> }
 
 /// tiny glob used by the generator's patterns only: a literal path, `*` (anything, separators included), or `<dir>/*`
 fn glob(pat: &str, path: &str) -> bool {
@@ -91,6 +91,8 @@ fn apply_rules(rules: &[Rule], own: &Arts, link_mats: &Arts, link_prods: &Arts, 
 fn expected(s: &Scenario, ids: &[String]) -> bool {
     // C01: at least one trusted key and every one of them signed
     if s.owners.is_empty() || !s.owners.iter().all(|o| s.signed_by.contains(o)) { return false; }
+    // the same key supplied under a second identifier is an aliased key set: never accepted (a repeated signature changes nothing)
+    if s.alias_owner { return false; }
     // C06
     if s.expired { return false; }
     let mut reps: BTreeMap<String, (Arts, Arts)> = BTreeMap::new();
@@ -125,7 +127,7 @@ fn gen(rng: &mut Rng) -> Scenario {
     let names = ["a", "b", "c"];
     let paths = ["x", "y", "d/x", "d/y", "o/x", "d2/x"];
     let n_steps = 1 + rng.below(3) as usize;
-    let arts = |rng: &mut Rng| -> Arts { let mut m = Arts::new(); for p in paths.iter() { if rng.chance(40) { m.insert(p.to_string(), 1 + rng.below(2) as u8); } } m };
+    let arts = |rng: &mut Rng| -> Arts { let mut m = Arts::new(); for p in paths.iter() { if rng.chance(40) { m.insert(p.to_string(), (1 + rng.below(2) as u8, if rng.chance(35) { 1 + rng.below(2) as u8 } else { 0 })); } } m };
     let mut steps = vec![];
     for i in 0..n_steps {
         let name = names[i].to_string();
@@ -162,19 +164,27 @@ fn gen(rng: &mut Rng) -> Scenario {
                                mats: if dissent { arts(rng) } else { shared_m.clone() }, prods: if dissent && rng.chance(50) { arts(rng) } else { shared_p.clone() } });
         }
     }
-    Scenario { steps, table, owners, signed_by, expired: rng.chance(3), links }
+    Scenario { steps, table, owners, signed_by, alias_owner: rng.chance(4), dup_owner_sig: rng.chance(10), expired: rng.chance(3), links }
 }
 
-fn to_artifacts(a: &Arts) -> Vec<(&str, u8)> { a.iter().map(|(k, v)| (k.as_str(), *v)).collect() }
+fn to_artifacts(a: &Arts) -> BTreeMap<VirtualTargetPath, in_toto::models::TargetDescription> {
+    use in_toto::crypto::{HashAlgorithm, HashValue};
+    a.iter().map(|(k, (s256, s512))| {
+        let mut td = in_toto::models::TargetDescription::new();
+        td.insert(HashAlgorithm::Sha256, HashValue::new(vec![*s256; 32]));
+        if *s512 != 0 { td.insert(HashAlgorithm::Sha512, HashValue::new(vec![*s512; 64])); }
+        (VirtualTargetPath::new(k.clone()).unwrap(), td)
+    }).collect()
+}
 
 fn run_one(s: &Scenario, pool: &[PrivateKey]) -> Result<bool, String> {
     let d = tmpdir();
     for l in &s.links {
-        let lm = LinkMetadataBuilder::new().name(l.step.clone()).materials(artifacts(&to_artifacts(&l.mats))).products(artifacts(&to_artifacts(&l.prods))).build().unwrap();
+        let lm = LinkMetadataBuilder::new().name(l.step.clone()).materials(to_artifacts(&l.mats)).products(to_artifacts(&l.prods)).build().unwrap();
         let mut mb = signed_link(&lm, &[&pool[l.signer]]);
         if l.tampered {
             // keep the signature, change the content
-            let other = LinkMetadataBuilder::new().name(l.step.clone()).materials(artifacts(&to_artifacts(&l.mats))).products(artifacts(&[("tampered", 9)])).build().unwrap();
+            let other = LinkMetadataBuilder::new().name(l.step.clone()).materials(to_artifacts(&l.mats)).products(artifacts(&[("tampered", 9)])).build().unwrap();
             let sigs = mb.signatures.clone();
             mb = signed_link(&other, &[]);
             mb.signatures = sigs;
@@ -184,8 +194,13 @@ fn run_one(s: &Scenario, pool: &[PrivateKey]) -> Result<bool, String> {
     let steps = s.steps.iter().map(|st| step(&st.name, st.threshold, &st.keys.iter().map(|k| &pool[*k]).collect::<Vec<_>>(),
                                              st.mat_rules.iter().map(to_rule).collect(), st.prod_rules.iter().map(to_rule).collect())).collect();
     let l = layout(steps, vec![], &s.table.iter().map(|k| &pool[*k]).collect::<Vec<_>>(), if s.expired { -1 } else { 30 });
-    let lay: Metablock = signed_layout(&l, &s.signed_by.iter().map(|k| &pool[*k]).collect::<Vec<_>>());
-    let keys = owner_keys(&s.owners.iter().map(|k| &pool[*k]).collect::<Vec<_>>());
+    let mut lay: Metablock = signed_layout(&l, &s.signed_by.iter().map(|k| &pool[*k]).collect::<Vec<_>>());
+    if s.dup_owner_sig && !lay.signatures.is_empty() { let first = lay.signatures[0].clone(); lay.signatures.push(first); }
+    let mut keys = owner_keys(&s.owners.iter().map(|k| &pool[*k]).collect::<Vec<_>>());
+    if s.alias_owner && !s.owners.is_empty() {
+        use std::str::FromStr;
+        keys.insert(in_toto::crypto::KeyId::from_str(&"ab".repeat(32)).unwrap(), pool[s.owners[0]].public().clone());
+    }
     no_panic(|| in_toto_verify(&lay, keys, d.path().to_str().unwrap(), None)).map(|r| r.is_ok())
 }
 
